@@ -312,7 +312,8 @@ def main(ck):
                 m = "template" if rng.random() < 0.25 else "plain"
                 cases.append({"hex": ((b"<?php " if m == "template" else b"") + a + b" " + b).hex(), "mode": m, "origin": "alpha2",
                               "mut": "-", "run": True})
-        trip = [(a, b, c) for a in ALPHA for b in ALPHA for c in ALPHA] if not quick else [tuple(rng.choice(alpha) for _ in range(3)) for _ in range(1000)]
+        # (all 110 592 triples over the 48 hand-picked tokens made the thorough tier too long for this machine: a seeded fifth)
+        trip = [tuple(rng.choice(alpha) for _ in range(3)) for _ in range(1000 if quick else 8000)] + ([] if quick else rng.sample([(a, b, c) for a in ALPHA for b in ALPHA for c in ALPHA], 22000))
         for a, b, c in trip:
             cases.append({"hex": (a + b" " + b + b" " + c).hex(), "mode": "plain", "origin": "alpha3", "mut": "-", "run": False})
         # tails that end a source in the middle of a multi-byte look-ahead or of an opening construct
@@ -348,7 +349,7 @@ def main(ck):
         # until fix c9660c6; they are also run at depth 20, where an exponential parser does not answer)
         SHALLOW = (b"[$a, ", b"[$a, $b, ", b"f($a, ", b"[$a, $b, $c => ")
         # bytes: the deepest inputs are as deep as a source of this size allows (at most 10^6 levels)
-        BIG = 3000000 if quick else 8000000
+        BIG = 3000000 if quick else 4000000
         # nested heredocs inside interpolation are re-lexed once per level (known finding time:heredoc-nest, measured by
         # the time-ratio test below): deeper than this they only measure that quadratic cost
         MAXN = {b"<<<A\n{$a[": 2000}
@@ -360,21 +361,22 @@ def main(ck):
                 cases.append({"hex": src.hex(), "mode": m, "origin": "depth", "mut": tag + ("" if closed else ":open"), "run": False})
         for k, (op, cl) in enumerate(openers):
             big = min(1000000, BIG // (len(op) + len(cl)), MAXN.get(op, 10 ** 9))
-            for n in ((20, 1500) if op in SHALLOW else ((1500, big) if quick else (1500, 100000, big))):
+            for n in sorted(set(min(n_, MAXN.get(op, 10 ** 9)) for n_ in ((20, 1500) if op in SHALLOW else ((1500, big) if quick else (1500, 100000, big))))):
                 for closed in (True, False):
-                    if quick and n == big and not closed:
-                        continue                                  # quick tier: the deepest inputs only in their closed form
-                    depth_cases(op, cl, n, closed, ("plain",) if (quick and n == big) else ("plain", "template"), op.decode("latin-1"))
+                    if n == big and not closed:
+                        continue                                  # the deepest inputs only in their closed form (memory: each is megabytes)
+                    depth_cases(op, cl, n, closed, ("plain",) if n >= 100000 else ("plain", "template"), op.decode("latin-1"))
             # alternating with the next construct of the list (thorough: with every other one)
             if quick:
                 partners = [openers[(k + 1 + ck.seed) % len(openers)]] if (k + ck.seed) % 3 == 0 else []
             else:
-                partners = [o for o in openers if o[0] != op]
+                # thorough: four partners each (every pair would be 3 080 multi-megabyte inputs: 12 GB of text)
+                partners = [openers[(k + d + ck.seed) % len(openers)] for d in (1, 7)]
             for op2, cl2 in partners:
                 if op in SHALLOW or op2 in SHALLOW:
                     continue
                 big2 = min(500000, BIG // (len(op) + len(cl) + len(op2) + len(cl2)), MAXN.get(op, 10 ** 9), MAXN.get(op2, 10 ** 9))
-                depth_cases(op + op2, cl2 + cl, big2 if quick else min(big2, 200000), True, ("plain",), op.decode("latin-1") + "+" + op2.decode("latin-1"))
+                depth_cases(op + op2, cl2 + cl, big2 if quick else min(big2, 100000), True, ("plain",), op.decode("latin-1") + "+" + op2.decode("latin-1"))
         # (i) corpus files: first pass to get the token spans
         files = sorted(glob.glob(os.path.join(vcheck.REPO, "tests", "**", "*.php"), recursive=True) +
                        glob.glob(os.path.join(vcheck.REPO, "tests", "**", "*.zy"), recursive=True) +
@@ -385,12 +387,12 @@ def main(ck):
         bases = []
         for f in pick:
             data = open(f, "rb").read()
-            limit = 2500 if quick else 30000
+            limit = 2500 if quick else 8000
             if len(data) > limit:
                 data = data[:limit]
             bases.append((data, "template" if f.endswith(".php") else "plain", "corpus", False))
         # (ii) grammar-generated programs (safe to execute)
-        for gi in range(120 if quick else 1500):
+        for gi in range(120 if quick else 360):
             EXT[0] = gi % 3 == 0
             if rng.random() < 0.25:
                 bases.append((b"<html>\n<?php\n" + gen_program(rng).encode() + b"?>\n</html>\n", "template", "generated-t", True))
@@ -408,8 +410,8 @@ def main(ck):
         for (data, mode, origin, runnable), o in zip(bases, first):
             cases.append({"hex": data.hex(), "mode": mode, "origin": origin, "mut": "none", "run": runnable})
             toks = o.get("toks") or []
-            k = (6, 4, 3, 2) if quick else (40, 30, 20, 12)
-            for mut, d in token_mutants(rng, data, toks, *k) + byte_mutants(rng, data, 4 if quick else 20):
+            k = (6, 4, 3, 2) if quick else (10, 8, 6, 3)
+            for mut, d in token_mutants(rng, data, toks, *k) + byte_mutants(rng, data, 4 if quick else 6):
                 cases.append({"hex": d.hex(), "mode": mode, "origin": origin, "mut": mut, "run": runnable})
 
     ck.log("generated %d inputs" % len(cases))
@@ -486,7 +488,11 @@ def main(ck):
             if unb:
                 stats["accepted-unbalanced"] = stats.get("accepted-unbalanced", 0) + 1
                 rep["clause"] = "the source was accepted although its bracket tokens do not balance: " + unb
-                ck.violation("accepted-unbalanced:%s" % unb.split(" ")[0], rep)
+                if c["origin"] == "corpus" and (c["mut"].startswith("sub:") or c["mut"].startswith("inner->")):
+                    # substitution mutants of corpus files (classes, interfaces, annotations: outside the generated grammar)
+                    ck.violation("accepted-unbalanced:corpus-sub:%s" % unb.split(" ")[0], rep)
+                else:
+                    ck.violation("accepted-unbalanced:%s" % unb.split(" ")[0], rep)
         elif p == "error":
             stats["parse-error"] += 1
             if not o.get("pline"):
@@ -536,7 +542,7 @@ def main(ck):
             "minus-chain": lambda n: b"$x = 1" + b"-1" * n + b";",
             "heredoc-nest": lambda n: b"$x = " + b"<<<A\n{$a[" * n + b"1" + b"]}\nA\n" * n + b";",
         }
-        n0 = 4000 if quick else 20000
+        n0 = 4000 if quick else 8000
         treq, tkey = [], []
         slow = {"alt-syntax": 4, "interpolation": 4, "heredoc-nest": 2}      # shapes with a large constant: a quarter of the length suffices
         for name, f in sorted(shapes.items()):
@@ -582,7 +588,7 @@ def main(ck):
     # ---- tie: lexer model vs real lexer on (a size-limited part of) this distribution
     tie = [i for i, c in enumerate(cases) if len(c["hex"]) <= (1000 if quick else 4000) and not outs[i].get("dead")
            and not outs[i].get("exited")]
-    cap = 600 if quick else 20000
+    cap = 600 if quick else 5000
     if len(tie) > cap:
         tie = sorted(rng.sample(tie, cap))
     order = sorted(tie, key=lambda i: -len(cases[i]["hex"]))
@@ -617,8 +623,7 @@ def main(ck):
     stie = {"cases": 0, "unrepresentable": 0, "unsup": 0}
     if not ck.replay:
         progs = [bytes.fromhex(c["hex"]).decode("latin-1") for c in cases if c["origin"] == "generated" and c["mut"] == "none"]
-        if quick:
-            progs = progs[:90]
+        progs = progs[:90] if quick else progs[:270]
         first = stmttie.run_engine(stmt_bin, progs)
         ssrcs = []
         INS = ["(", ")", "{", "}", "[", "]", ",", ";", "=>", ":", "?", "+", "-", "++", "=", "if", "else", "case", "echo", "new",
@@ -626,7 +631,7 @@ def main(ck):
         for pr, o in zip(progs, first):
             ssrcs.append(pr)
             toks = [t[1] if t[0] not in ("true", "false", "null") else t[0] for t in (o.get("toks") or [])]
-            for _ in range(9 if quick else 30):
+            for _ in range(9 if quick else 16):
                 if not toks:
                     break
                 k = rng.randrange(5)
